@@ -7,10 +7,39 @@ Open Scope N_scope.
 
 Local Opaque redact_userinfo_hides_password redact_hpu_hides_password redact_base64_hides_payload
       redact_url_uses_redacted log_url_uses_redacted userinfo_placeholder_suffix base64_prefix
-      base64_placeholder flag_table.
+      base64_placeholder flag_table redact_prefix_fold reader_prefix_fold reader_data_prefix.
 
 Lemma has_prefix_refl s : has_prefix s s = true.
 Proof. induction s as [|c s IH]; simpl; [reflexivity|]. rewrite N.eqb_refl. exact IH. Qed.
+
+Lemma prefix_test_refl fold p : prefix_test fold p p = true.
+Proof.
+  unfold prefix_test. destruct fold.
+  - rewrite firstn_all. apply eq_fold_refl.
+  - apply has_prefix_refl.
+Qed.
+
+Lemma has_prefix_firstn s p : has_prefix s p = true -> firstn (length p) s = p.
+Proof.
+  intro H. apply has_prefix_spec in H as [r ->].
+  rewrite firstn_app, Nat.sub_diag, firstn_all. simpl. apply app_nil_r.
+Qed.
+
+(* every value the reader takes for inline data is recognised by the redactor *)
+Lemma accepted_is_redacted s :
+  reader_data_prefix = base64_prefix -> (reader_prefix_fold = false \/ redact_prefix_fold = true) ->
+  redact_base64_hides_payload = true ->
+  reader_accepts s = true -> redact_base64 s = base64_placeholder.
+Proof.
+  intros Hp Hf Hh. unfold reader_accepts, redact_base64. rewrite Hp, Hh.
+  unfold prefix_test. destruct Hf as [Hf | Hf]; rewrite Hf.
+  - intro H. destruct redact_prefix_fold.
+    + rewrite (has_prefix_firstn _ _ H), eq_fold_refl. reflexivity.
+    + rewrite H. reflexivity.
+  - destruct reader_prefix_fold; intro H.
+    + rewrite H. reflexivity.
+    + rewrite (has_prefix_firstn _ _ H), eq_fold_refl. reflexivity.
+Qed.
 
 Section Redaction.
   Hypothesis Hui : redact_userinfo_hides_password = true.
@@ -27,8 +56,8 @@ Section Redaction.
 
   Lemma redact_base64_scrub s : redact_base64 s = redact_base64 (scrub_b64 s).
   Proof.
-    unfold redact_base64, scrub_b64. destruct (has_prefix s base64_prefix) eqn:E.
-    - rewrite has_prefix_refl, Hb64. reflexivity.
+    unfold redact_base64, scrub_b64. destruct (prefix_test redact_prefix_fold s base64_prefix) eqn:E.
+    - rewrite prefix_test_refl, Hb64. reflexivity.
     - rewrite E. reflexivity.
   Qed.
 
